@@ -249,18 +249,130 @@ func opList(es []*edit, breaking bool) string {
 	return strings.Join(ops, "+")
 }
 
-func qualSuffix(es []*edit, g string) string {
+func qualSuffix(bp *baseProg, es []*edit, g string) string {
 	if len(es) != 1 {
 		return ""
 	}
+	e := es[0]
+	gf := bp.p.File(g)
+	if e.Op == "retarget-typedef" && gf != nil {
+		// where the audited file meets the alias: in another file? in a file it
+		// does not even include (reached through an alias of an included file:
+		// as a bare alias chain, or inside a container alias)?
+		s := ":via-typedef"
+		nested := false
+		for _, q := range e.Quals {
+			if q == "nested" {
+				nested = true
+			}
+		}
+		if e.File != g {
+			s += ":via-include"
+			if !includesFile(gf, e.File) {
+				s += ":transitive-" + strings.Join(useShapes(bp.p, gf, bp.p.File(e.File), e.tdName), "+")
+			}
+		}
+		if nested {
+			s += ":nested"
+		}
+		return s
+	}
 	s := ""
-	for _, q := range es[0].Quals {
+	for _, q := range e.Quals {
 		s += ":" + q
 	}
-	if es[0].File != g {
+	if e.File != g {
 		s += ":via-include"
 	}
+	if gf != nil {
+		if e.File != g && !includesFile(gf, e.File) {
+			return s + ":transitive"
+		}
+		for _, h := range declRefs(bp.p, e) {
+			if h != g && !includesFile(gf, h) {
+				s += ":transitive"
+				break
+			}
+		}
+	}
 	return s
+}
+
+// declRefs lists the files named (include.Name) by the types of the
+// declaration an edit works in.
+func declRefs(p *idl.Program, e *edit) []string {
+	f := p.File(e.File)
+	if f == nil {
+		return nil
+	}
+	parts := strings.SplitN(e.Keys[0], "/", 3)
+	if len(parts) < 2 {
+		return nil
+	}
+	name := strings.TrimPrefix(parts[1], "td:")
+	set := map[string]bool{}
+	for _, d := range f.Decls {
+		if d.Name() != name {
+			continue
+		}
+		eachType(&idl.File{Decls: []*idl.Decl{d}}, func(t *idl.Type) {
+			for _, nd := range typeNodes(t) {
+				if i := strings.IndexByte(nd.t.Name, '.'); i > 0 && !nd.t.IsContainer() {
+					set[nd.t.Name[:i]] = true
+				}
+			}
+		})
+	}
+	var out []string
+	for h := range set {
+		out = append(out, h)
+	}
+	sort.Strings(out)
+	return out
+}
+
+// useShapes says how the audited positions of file g reach typedef `name` of
+// file `of`: "direct" (g names it), "chain" (through bare aliases only),
+// "container-alias" (inside the container type of an alias).
+func useShapes(p *idl.Program, g, of *idl.File, name string) []string {
+	set := map[string]bool{}
+	var walk func(f *idl.File, t *idl.Type, hops int, inContainerAlias bool)
+	walk = func(f *idl.File, t *idl.Type, hops int, inContainerAlias bool) {
+		if t == nil || hops > 32 {
+			return
+		}
+		if t.IsContainer() {
+			walk(f, t.Key, hops, inContainerAlias)
+			walk(f, t.Val, hops, inContainerAlias)
+			return
+		}
+		if idl.IsBase(t.Name) {
+			return
+		}
+		r := p.Lookup(f, t.Name)
+		if r == nil || r.TypeDef == nil {
+			return
+		}
+		if of != nil && r.File == of && r.TypeDef.Name == name {
+			switch {
+			case hops == 0:
+				set["direct"] = true
+			case inContainerAlias:
+				set["container-alias"] = true
+			default:
+				set["chain"] = true
+			}
+			return
+		}
+		walk(r.File, r.TypeDef.Type, hops+1, inContainerAlias || r.TypeDef.Type.IsContainer())
+	}
+	eachCheckedType(g, func(t *idl.Type, _ *idl.Field) { walk(g, t, 0, false) })
+	var out []string
+	for k := range set {
+		out = append(out, k)
+	}
+	sort.Strings(out)
+	return out
 }
 
 // blame names the operator of a refuted multi-edit script: the first edit
@@ -268,7 +380,7 @@ func qualSuffix(es []*edit, g string) string {
 // exhaustive single-edit pass gives it), else the combination.
 func blame(bp *baseProg, g, oldFile string, cands, script []*edit, wrongFail bool, dir string, style idl.Style) string {
 	if len(script) == 1 {
-		return cands[0].Op + qualSuffix(cands, g)
+		return cands[0].Op + qualSuffix(bp, cands, g)
 	}
 	for i, e := range cands {
 		c := &ectx{p: bp.p.Clone()}
@@ -282,7 +394,7 @@ func blame(bp *baseProg, g, oldFile string, cands, script []*edit, wrongFail boo
 		v := newInproc().audit(oldFile, filepath.Join(d, c.p.File(g).FileName()))
 		os.RemoveAll(d)
 		if v.Bad == "" && v.Fail == wrongFail {
-			return e.Op + qualSuffix([]*edit{e}, g)
+			return e.Op + qualSuffix(bp, []*edit{e}, g)
 		}
 	}
 	// no edit of the script is misjudged on its own: the others mask it
@@ -490,7 +602,7 @@ func evaluate(j *job, a *inproc, bin string, scratch string) *result {
 
 func runC18() int {
 	run := ev.New("C18", ev.ArgTier(), "exploration")
-	run.Rule("N random base programs (idl.Generate, CoreConfig, 1-3 files) + R more on which only the operators with few sites per program are enumerated; new = old + an edit script over the documented catalogue " +
+	run.Rule("N random base programs (idl.Generate, CoreConfig, 1-3 files) + R more on which only the operators with few sites per program are enumerated + T more generated with TransitiveTypedefs and a planted chain root -> zqmid -> zqdeep (root does not include zqdeep) on which every typedef operator is enumerated; new = old + an edit script over the documented catalogue " +
 		"(compiler/parser/audit.go requirement comments + property text): (a) EVERY single operator at EVERY applicable site of every base program " +
 		"(exhaustive per program: every field / argument / exception / method / operation / enum variant / declaration, every node of every type " +
 		"expression, every typedef), (b) pairs of one breaking + one compatible edit (random sample, same-declaration neighbours, and replacements = a removal plus an addition to the same list; both orders), (c) random scripts of 2-6 edits " +
@@ -500,9 +612,9 @@ func runC18() int {
 	run.Assume("verif/idl renders the model faithfully (C10 anchors the parser against it); the label of each operator is the one documented in audit.go / the property text (catalogue in the evidence)")
 	run.Assume("two edits of one script never share a site (conflict keys) and added ids / enum numbers / names are fresh, so no edit cancels another")
 
-	nProg, nRare, nPairB, nPairC, nNeighbours, nReplace, nScripts, nRestyle, binEvery := 5, 30, 8, 8, 40, 60, 40, 4, 3
+	nProg, nRare, nTrans, nPairB, nPairC, nNeighbours, nReplace, nScripts, nRestyle, binEvery := 5, 30, 10, 8, 8, 40, 60, 40, 4, 3
 	if run.Thorough() {
-		nProg, nRare, nPairB, nPairC, nNeighbours, nReplace, nScripts, nRestyle, binEvery = 200, 300, 6, 6, 30, 40, 24, 3, 8
+		nProg, nRare, nTrans, nPairB, nPairC, nNeighbours, nReplace, nScripts, nRestyle, binEvery = 200, 300, 150, 6, 6, 30, 40, 24, 3, 8
 	}
 	bin, err := emit.FrugalBin()
 	if err != nil {
@@ -527,7 +639,17 @@ func runC18() int {
 		setup := newInproc()
 		opSites := map[string]int{}
 		rng := run.Rand(fmt.Sprintf("c18-prog-%d", i))
-		bp := &baseProg{ix: i, p: idl.Generate(rng, cfg), style: idl.RandomStyle(rng)}
+		pcfg := cfg
+		if i >= nProg+nRare {
+			// pool with typedefs that alias another file's types (chains across
+			// includes; the root need not include the deepest file)
+			pcfg.TransitiveTypedefs = true
+			pcfg.MinFiles, pcfg.MaxFiles = 2, 3
+		}
+		bp := &baseProg{ix: i, p: idl.Generate(rng, pcfg), style: idl.RandomStyle(rng)}
+		if i >= nProg+nRare {
+			augmentTransitive(bp.p, rng)
+		}
 		if i%3 == 0 {
 			bp.style = idl.DefaultStyle()
 		}
@@ -550,6 +672,16 @@ func runC18() int {
 		bp.edits = enumerate(bp.p, rng)
 		add := func(kind string, edits []int, st idl.Style) {
 			jobs = append(jobs, &job{base: bp, kind: kind, edits: edits, style: st})
+		}
+		if i >= nProg+nRare {
+			add("identical", nil, bp.style)
+			for ix, e := range bp.edits {
+				if transitiveOp(e) {
+					add("single", []int{ix}, bp.style)
+					opSites[e.Op]++
+				}
+			}
+			return bp, jobs, opSites
 		}
 		if i >= nProg {
 			// extra base programs for the operators that have only a handful
@@ -679,7 +811,7 @@ func runC18() int {
 		jobs  []*job
 		sites map[string]int
 	}
-	setups := make([]setupResult, nProg+nRare)
+	setups := make([]setupResult, nProg+nRare+nTrans)
 	{
 		var wg sync.WaitGroup
 		sem := make(chan struct{}, workers)
@@ -815,6 +947,7 @@ func runC18() int {
 	run.Set("base_programs", len(bases))
 	run.Set("base_programs_fully_enumerated", nProg)
 	run.Set("base_programs_rare_operators_only", nRare)
+	run.Set("base_programs_transitive_typedef_pool", nTrans)
 	feat := map[string]bool{}
 	files := 0
 	for _, b := range bases {
